@@ -51,6 +51,22 @@ def check_roundtrip(inp):
         text = printed(logic, obj)
     except Exception as e:
         return Failure('roundtrip', inp, 'a printed form', 'str raised %s: %s' % (type(e).__name__, e))
+    if inp.get('prime') or (fm.size(t) * 3 + len(text)) % 7 == 0:
+        # what the session parsed BEFORE must not matter: first some hand-written texts whose QUOTED atoms are
+        # spelled like printed subformulas of this very formula (legal atoms; tables keyed by printed forms
+        # cannot tell them from the subformulas)
+        for sub in [x for x in fm.subformulas(t) if x[0] not in fm.LEAF][:3]:
+            try:
+                st_ = printed(logic, fm.to_lib(sub, L)) if fm.kind(logic, sub) else None
+            except Exception:
+                st_ = None
+            if not st_ or '"' in st_:
+                continue
+            for primer in ('"%s"' % st_, '("%s" or "%s")' % (st_, st_[1:-1] if st_.startswith('(') else st_)):
+                try:
+                    parser(logic)(primer)
+                except Exception:
+                    pass                      # a primer the grammar refuses primes nothing
     try:
         fresh = inp.get('fresh_parser', False)
         g = (L.Parser() if fresh else parser(logic))(text)
